@@ -75,18 +75,26 @@ class Mon(object):
             back = self.um.loads(data)
         except Exception as e:
             p.violation('loads-rejects-valid', 'loads rejects valid stream %s.. (%s): %r' % (
-                data[:24].hex(), tag, e), {'kind': 'stream', 'hex': data.hex()[:200000], 'tag': tag})
+                data[:24].hex(), tag, e), self.case({'kind': 'stream', 'hex': data.hex()[:200000], 'tag': tag}, data))
             return
         try:
             got = ref.canon(back, self.Ext)
         except TypeError as e:
             p.violation('loads-alien-type', 'loads returned a value outside the data model: %r' % e,
-                        {'kind': 'stream', 'hex': data.hex()[:200000], 'tag': tag})
+                        self.case({'kind': 'stream', 'hex': data.hex()[:200000], 'tag': tag}, data))
             return
         if ref.unordered(got) != ref.unordered(want):
             p.violation('loads-wrong', 'loads(%s..) = %s, expected %s (%s)' % (
                 data[:24].hex(), describe(got), describe(want), tag),
-                {'kind': 'stream', 'hex': data.hex()[:200000], 'tag': tag})
+                self.case({'kind': 'stream', 'hex': data.hex()[:200000], 'tag': tag}, data))
+
+    hint = None
+
+    def case(self, d, data):
+        # encodings too long to store: the replay re-creates them from the arguments of the job
+        if self.hint and len(data) > 100000:
+            return dict(self.hint, tag=d.get('tag'), cut=d.get('cut'))
+        return d
 
     def prefixes(self, data, tag, cuts='all'):
         p = self.p
@@ -105,10 +113,10 @@ class Mon(object):
                 continue
             except Exception as e:
                 p.violation('prefix-wrong-exception', 'loads(prefix %d/%d of %s) raised %r, not InsufficientData' % (
-                    i, n, tag, e), {'kind': 'prefix', 'hex': data.hex()[:200000], 'cut': i, 'tag': tag})
+                    i, n, tag, e), self.case({'kind': 'prefix', 'hex': data.hex()[:200000], 'cut': i, 'tag': tag}, data))
                 return
             p.violation('prefix-accepted', 'loads(prefix %d/%d of %s) returned %s' % (i, n, tag, describe(r)),
-                        {'kind': 'prefix', 'hex': data.hex()[:200000], 'cut': i, 'tag': tag})
+                        self.case({'kind': 'prefix', 'hex': data.hex()[:200000], 'cut': i, 'tag': tag}, data))
             return
 
     def refused(self, n):
@@ -170,10 +178,16 @@ def work_ints(arg):
     return part.dump()
 
 
+BIG_PAYLOADS = (131073, 2 ** 20 - 1, 2 ** 20, 2 ** 20 + 1, 2 ** 20 + 4097, 3 * 2 ** 20 + 5)
+
+
 def work_len(arg):
     kind, n, stride = arg
     part = core.Part()
     m = Mon(part)
+    if n > 100000:
+        part.count('payloads_over_100000_bytes')
+        m.hint = {'kind': 'len', 'args': [kind, n, stride]}
     um = _um()
     part.case((kind, n), nontrivial=True)
     big = n > 600
@@ -431,6 +445,8 @@ def main(run):
     tasks = [('vf.props.c14:work_ints', [0]), ('vf.props.c14:work_first_bytes', [0]), ('vf.props.c14:work_special', [0])]
     lens = boundary_lengths(run.tier)
     len_args = [[k, n, run.pick(24, 400)] for k in ('str', 'bin', 'ext', 'arr', 'map') for n in lens]
+    # payloads beyond every plausible internal buffer or chunk size (cuts inside the payload, at its ends and strided)
+    len_args += [[k, n, run.pick(48, 400)] for k in ('str', 'bin', 'ext') for n in BIG_PAYLOADS]
     nrand = run.pick(3000, 60000)
     per = run.pick(200, 1000)
     rand_args = [[run.seed, s, per] for s in range(0, nrand, per)]
@@ -446,7 +462,7 @@ def main(run):
             run.merge(r)
     run.extra['enumerated'] = {
         'integers': 'every integer within +-3 of +-2^k for k in %s, plus -40..39; each in every legal int format' % (INT_POWERS,),
-        'lengths': 'str/bin/ext/array/map of every length in %s, each with every legal header width' % (lens,),
+        'lengths': 'str/bin/ext/array/map of every length in %s, each with every legal header width; str/bin/ext payloads of %s bytes' % (lens, BIG_PAYLOADS),
         'first_bytes': 'all 256 first bytes (0xc1 reserved: skipped), each alone and nested in array/map',
         'cut_points': 'every proper prefix for encodings <= 600 bytes; first/last 40 cuts + ~%d strided cuts for longer ones' % run.pick(24, 400),
         'special_strings': 'strings/bytes/ext whose first or last characters are special to some codec: %r' % (SPECIAL_STRINGS,),
@@ -486,6 +502,8 @@ def replay(run, path):
             m.prefixes(buf, 'replay:' + c.get('tag', ''))
         elif c.get('kind') == 'refuse':
             m.refused(int(c['int']))
+        elif c.get('kind') == 'len':
+            run.merge(work_len(c['args']))
         else:
             print('replay: value cases are re-created by re-running the check at the same seed')
     run.merge(part.dump())
